@@ -72,7 +72,18 @@ class C13(SCheck):
             if r.random() < 0.5:
                 ops.append(gen.l_op("out/via", "$ROOT/vol/xdir"))
                 ops.append(gen.l_op("src/xchain", "$ROOT/out/via"))
-        top = r.random() < 0.2
+        if r.random() < 0.25:
+            # a link reached *through* a link to a directory whose own text climbs with "..": it must be resolved where it physically
+            # lives (out/store/pkg/..), not where a textual clean-up of src/pkg/../common would put it (a decoy sits there)
+            ops += [gen.d_op("out/store"), gen.d_op("out/store/pkg"), gen.d_op("out/store/common"), gen.f_op("out/store/common/LIC", 40, pat=21),
+                    gen.f_op("out/store/pkg/body", 30, pat=22), gen.l_op("out/store/pkg/LIC", "../common/LIC"),
+                    gen.d_op("src/common"), gen.f_op("src/common/LIC", 41, pat=23), gen.l_op("src/pkg", "../out/store/pkg")]
+        into_dest = r.random() < 0.2
+        if into_dest:
+            # a source link that leads into what an earlier copy left in the destination (restore-from-backup layouts)
+            ops += [gen.d_op("dst"), gen.d_op("dst/src"), gen.d_op("dst/src/old"), gen.f_op("dst/src/old/one", 12, pat=31), gen.d_op("dst/src/old/deep"),
+                    gen.f_op("dst/src/old/deep/two", 13, pat=32), gen.l_op("src/restored", "../dst/src/old")]
+        top = r.random() < 0.2 and not into_dest
         flags = {"r": True, "L": True}
         if top:
             ops.append(gen.l_op("toplink", r.choice(["out/tdir", "out/tfile", "src"])))
